@@ -111,15 +111,31 @@ def _calc_key(world, key, eternal_period=None):
 
 
 def reads_of_last_op(world):
-    """Every (variable, period) the formulas of the last operation read (plain reads)."""
+    """Every (variable, period) the formulas of the last operation read - a sum or a
+    division counted as the stored pieces it reads (the definition periods tiling the
+    window; the whole definition period a divided read lies in)."""
+    from openfisca_core import periods
+
     out = set()
     for f in CTX.frames:
         for rec in f.reads:
-            var, period = rec[0], rec[1]
+            var, period, opt = rec[0], rec[1], rec[2]
             spec = world.var_specs.get(var)
             if spec is None:
                 continue
-            out.add((var, ETERNITY if spec["unit"] == "eternity" else str(period)))
+            if spec["unit"] == "eternity":
+                out.add((var, ETERNITY))
+            elif not opt:
+                out.add((var, str(period)))
+            else:
+                try:
+                    p = periods.period(period)
+                    if opt.startswith("ADD"):
+                        out.update((var, str(s)) for s in p.get_subperiods(periods.DateUnit(spec["unit"])))
+                    else:
+                        out.add((var, str(p.this_year if spec["unit"] == "year" else p.first_month)))
+                except Exception:  # noqa: BLE001,S110  (bookkeeping for the finding matcher only)
+                    out.add((var, str(period)))
     return out
 
 
